@@ -969,11 +969,29 @@ theorem radixLoop_inv (xs : List Nat) : ∀ n : Nat,
       exact mod_pow_succ_le (by omega) (fun _ => hxy)
     · exact ⟨(shufflePass_perm n _).trans hp, shufflePass_step n _ hs⟩
 
+theorem isSortedAdj_iff (xs : List Nat) : isSortedAdj xs = true ↔ xs.Pairwise (· ≤ ·) := by
+  induction xs with
+  | nil => simp [isSortedAdj]
+  | cons x rest ih =>
+    cases rest with
+    | nil => simp [isSortedAdj]
+    | cons y rest =>
+      simp only [isSortedAdj, Bool.and_eq_true, decide_eq_true_eq, ih, List.pairwise_cons]
+      constructor
+      · rintro ⟨hxy, hy, hr⟩
+        refine ⟨?_, hy, hr⟩
+        intro a ha
+        rcases List.mem_cons.mp ha with rfl | ha
+        · exact hxy
+        · exact Nat.le_trans hxy (hy a ha)
+      · rintro ⟨hx, hy, hr⟩
+        exact ⟨hx y (List.mem_cons_self ..), hy, hr⟩
+
 theorem lsbRadix_sorted_perm {nb : Nat} {xs : List Nat} (hk : ∀ x ∈ xs, x < 256 ^ nb) :
     (lsbRadix nb xs).Perm xs ∧ (lsbRadix nb xs).Pairwise (· ≤ ·) := by
   unfold lsbRadix
   split
-  · next h => exact ⟨List.Perm.refl _, h⟩
+  · next h => exact ⟨List.Perm.refl _, (isSortedAdj_iff _).mp h⟩
   · obtain ⟨hp, hs⟩ := radixLoop_inv xs nb
     refine ⟨hp, hs.imp_of_mem ?_⟩
     intro x y hx hy hxy
